@@ -31,7 +31,6 @@ ASSUMES = [
     "snake_names_distinct: the transport property names (snake-cased transport-safe RPC names, legacy IAM names, mixin names) "
     "of a service are pairwise distinct (DESIGN section 9 no. 11; refuted without it)",
     "package, service and RPC names contain no '/' (protobuf identifiers)",
-    "lookup_total: not (add-iam-methods and asyncio client) unless the IAM mixin supplies the three entries (refuted otherwise: reported)",
     "coerce_equiv: the hypotheses of C05 for the asyncio cross-package constructor (flattened keys top-level)",
     "methods made internal by selective generation and extended-operation (compute) services are not modelled",
 ]
@@ -73,7 +72,7 @@ def make_api(r, shape, *, add_iam=False, mixins=False, collide=False):
         rq = other_req if use_other_req else r.choice(main_req)
         void = (not cs and not ss and r.random() < 0.3)
         rs = U.EMPTY if void else (other_resp.fqn if use_other_resp else main_resp.fqn)
-        sigs = pick_sigs(r, idx0, rq.fqn, use_other_req, None) if (not cs and r.random() < 0.4) else []
+        sigs = pick_sigs(r, idx0, rq.fqn, use_other_req, None, avoid_defects=True) if (not cs and r.random() < 0.4) else []
         svc.rpc(nm, rq.fqn, rs, cs=cs, ss=ss, sigs=sigs)
     if not collide:
         # a paged and a long-running RPC (their wrappers are C07's / C08's business; here: which entry they call, what they pass)
@@ -583,8 +582,7 @@ class ApiRun:
         sv = self.sname(i)
         case = dict(self.case, service=s.name, method=mname, variant=variant, spelling="legacy_iam", requests_b64=[U.b64(sent[0])])
         ctx.case({"api": self.h, "method": mname, "variant": variant, "legacy_iam": True}, nontrivial=True, feature=[variant, "legacy-iam-method"])
-        form = "Direct" if variant == "Sync" else "Table"
-        cm = f"(mkCM {coq.s(mname)} {form} {coq.s(mname)})"
+        cm = f"(mkCM {coq.s(mname)} Direct {coq.s(mname)})"
         if o["ok"] and len(o["calls"]) == 1:
             self.checks.append((f"T2 {self.tag}.{mname} {variant}: legacy IAM method reaches {o['calls'][0]['path']}",
                                 f"match dispatch {variant} {sv} {cm} with Some st => String.eqb (st_path st) {coq.s(o['calls'][0]['path'])} | None => false end"))
